@@ -85,13 +85,32 @@ TAdvEnd == /\ IsEv("AdvEnd") /\ stack # <<>> /\ Top.k = "adv"
            /\ stack' = Pop
            /\ UNCHANGED <<cfg, tnow, reqs, closed>>
 
+(* the other direction: a request of the peer is handed to onRecvData() and served (synchronously, or asynchronously with a   *)
+(* later Rpc::respond(), or never); what the peer gets back is logged as PeerRsp.  Ids of the two directions overlap.  None   *)
+(* of it may complete a request of ours: a Cb inside these contexts matches no action.                                      *)
+TInReq == /\ IsEv("InReq") /\ cfg # None /\ ~closed
+          /\ stack' = Append(stack, Frame("in", 0, 0, 0, FALSE))
+          /\ UNCHANGED <<cfg, tnow, reqs, closed>>
+TInReqEnd == /\ IsEv("InReqEnd") /\ stack # <<>> /\ Top.k = "in"
+             /\ stack' = Pop
+             /\ UNCHANGED <<cfg, tnow, reqs, closed>>
+TRespond == /\ IsEv("Respond") /\ cfg # None /\ ~closed
+            /\ stack' = Append(stack, Frame("in", 0, 0, 0, FALSE))
+            /\ UNCHANGED <<cfg, tnow, reqs, closed>>
+TRespondEnd == /\ IsEv("RespondEnd") /\ stack # <<>> /\ Top.k = "in"
+               /\ stack' = Pop
+               /\ UNCHANGED <<cfg, tnow, reqs, closed>>
+TPeerRsp == /\ IsEv("PeerRsp") /\ cfg # None
+            /\ UNCHANGED <<cfg, tnow, reqs, stack, closed>>
+
 TCleanup == /\ IsEv("Cleanup") /\ cfg # None /\ stack = <<>> /\ ~closed
             /\ closed' = TRUE
             /\ UNCHANGED <<cfg, tnow, reqs, stack>>
 TReset == /\ IsEv("Reset") /\ stack = <<>>
           /\ cfg' = None /\ tnow' = 0 /\ reqs' = <<>> /\ stack' = <<>> /\ closed' = FALSE
 
-TNext == TBegin \/ TReqCb \/ TNotify \/ TRsp \/ TRspEnd \/ TCbResp \/ TCbTmo \/ TCbEnd \/ TAdv \/ TAdvEnd \/ TCleanup \/ TReset
+TNext == TBegin \/ TReqCb \/ TNotify \/ TRsp \/ TRspEnd \/ TCbResp \/ TCbTmo \/ TCbEnd \/ TAdv \/ TAdvEnd
+         \/ TInReq \/ TInReqEnd \/ TRespond \/ TRespondEnd \/ TPeerRsp \/ TCleanup \/ TReset
 TSpec == TInit /\ [][TNext]_tvars
 
 (* never twice: follows from the guards (a Cb needs an open request and closes it); kept as a cheap cross-check *)
